@@ -10,5 +10,9 @@ assert not getattr(repo, "renames", None), "the tree already differs from the re
 snap = canon.snapshot(repo)
 snap["__types__"] = canon.snapshot_types(repo)
 snap["__aliases__"] = sorted({a["name"] for a in repo.aliases.values()})
+# every method name called anywhere in the reference tree: a new inherent method whose name is NOT among them cannot be mistaken for a
+# std / dependency method when its calls on receivers other than `self` are read in place (canon.inline_new_helpers)
+from vlib import ast as A
+snap["__methods__"] = sorted({n["method"] for f in repo.fns.values() for n in A.walk(f.body) if n["k"] == "MethodCall"})
 json.dump(snap, open(canon.TABLE, "w"), indent=0, sort_keys=True)
 print(len(repo.fns), "functions recorded in", canon.TABLE)
